@@ -94,6 +94,11 @@ func Seed(cfg *Config, name string) []uint32 {
 			do(Ev(EvTick, 1, 0, 0))
 			deliverAll(0)
 		}
+	case "two-precandidates":
+		// replicas 1 and 2 ran into their election timeouts at the same moment: both are pre-candidates
+		// (or candidates when pre-vote is off) with their requests to everybody still in flight
+		do(Ev(EvTimeout, 1, 0, 0))
+		do(Ev(EvTimeout, 2, 0, 0))
 	case "stepped-down-novote":
 		// replica 1 was leader of term T, replicas 2 and 3 both became candidates of term T+1 on their own
 		// timeouts; the old leader learnt T+1 from the reply to a heartbeat (check-quorum makes a
